@@ -801,8 +801,8 @@ def copyChunk : Nat → S → Nat → Nat → Nat → S × Nat × CopyEnd
 
 def setLimit (s : S) (n : Nat) : S := setW s { s.w with limit := n }
 
-/-- what `Conn.resumeLineLimit` counts of the buffered octets: the command lines up to and including the first BDAT command line —
-    what follows that line is the payload of the next chunk, not command lines -/
+/-- what `Conn.resumeLineLimit` counts of the buffered octets: the command lines — behind a BDAT command line that announces a size
+    comes the payload of that chunk, which is skipped (and if it is not buffered completely, nothing behind the line is counted) -/
 def cutAtBdat : Nat → Bytes → Bytes
   | 0, rest => rest
   | fuel + 1, rest =>
@@ -810,9 +810,18 @@ def cutAtBdat : Nat → Bytes → Bytes
     | none => rest
     | some i =>
       let line := rest.take i
+      let after := rest.drop i
       match parseCmd line with
-      | some (cmd, _) => if cmd == "BDAT".b then line else line ++ cutAtBdat fuel (rest.drop i)
-      | none => line ++ cutAtBdat fuel (rest.drop i)
+      | some (cmd, arg) =>
+        if cmd == "BDAT".b then
+          match fields arg with
+          | a0 :: _ =>
+            match parseUintDec a0 32 with
+            | some size => if after.length ≤ size then line else line ++ cutAtBdat fuel (after.drop size)
+            | none => line ++ cutAtBdat fuel after
+          | [] => line ++ cutAtBdat fuel after
+        else line ++ cutAtBdat fuel after
+      | none => line ++ cutAtBdat fuel after
 
 /-- `Conn.resumeLineLimit`: the limit comes back after a chunk; the buffered command lines behind the chunk are counted -/
 def armLimit (s : S) : S := setW s (Wire.resume s.w s.cfg.maxLine (cutAtBdat s.w.buf.length s.w.buf))
